@@ -101,6 +101,10 @@ func genC02(t *rapid.T) model.Case {
 			c := mkSessCtx(t, idx, peer)
 			op := model.Op{Kind: "est", Peer: peer, Seq: seq, Sess: idx, CPSEID: genSEID(t)}
 			op.PDRs, op.FARs, op.QERs = genRules(t, knobs, c)
+			if rapid.IntRange(0, 3).Draw(t, "n9") == 0 {
+				// a core-side PDR whose F-TEID the UP is to choose (N9 / S5-S8 style): it needs its Created PDR, too
+				op.PDRs = append(op.PDRs, model.PDR{ID: 90, Prec: 300, Src: "core", FTEID: true, Choose: true, OHR: true, FAR: op.FARs[len(op.FARs)-1].ID})
+			}
 			g.sess = append(g.sess, c02sess{peer: peer, live: g.assoc[peer]})
 			ops = append(ops, op)
 		case "estbad":
